@@ -19,6 +19,8 @@
    list of faults; the code has no time-out for it).  Boundedness in time is a run-time fact.
 
    Three switches stand for the three defects the property text names:
+     failed_start_shares_session  (variant of the second) connClosed filters by a number advanced only when an
+                             established session is closed: a failed Start's notification hits the next session
      wait_cfg_unguarded      Start's wait for the configuration result is not released by a lost connection
      stale_close_unfiltered  connClosed closes whatever session is current
      dead_conn_reused        a failed Start leaves the closed connection in stub.conn
@@ -174,7 +176,7 @@ Print Assumptions C16_restart_works_partial.
 (* delivering the notification of any other client to an established session changes nothing
    but the bookkeeping of notifications *)
 Theorem C16_stale_notification_harmless : forall sw s g,
-  stale_close_unfiltered sw = false -> ph s = Configured -> g <> gen s ->
+  stale_close_unfiltered sw = false -> failed_start_shares_session sw = false -> ph s = Configured -> g <> gen s ->
   same_session s (step sw s (ADeliver g)).
 Proof. exact stale_harmless. Qed.
 Print Assumptions C16_stale_notification_harmless.
@@ -182,9 +184,10 @@ Print Assumptions C16_stale_notification_harmless.
 (* for every timing: an established session survives the delivery of all notifications under
    way, in whatever number (fuel = how many the scheduler lets run) *)
 Theorem C16_session_survives : forall sw fuel s,
-  stale_close_unfiltered sw = false -> reachable sw s -> ph s = Configured -> cli_open s = true ->
+  stale_close_unfiltered sw = false -> failed_start_shares_session sw = false ->
+  reachable sw s -> ph s = Configured -> cli_open s = true ->
   same_session s (drain sw fuel s).
-Proof. intros sw fuel s F R. exact (session_survives sw fuel s F (reachable_wf sw s R)). Qed.
+Proof. intros sw fuel s F F2 R. exact (session_survives sw fuel s F F2 (reachable_wf sw s R)). Qed.
 Print Assumptions C16_session_survives.
 
 (* FALSE for the pinned code.  Witness: Start, Stop, Start; the first session's notification
@@ -199,6 +202,18 @@ Theorem C16_stale_notification_refuted :
 Proof. exact stale_notification_refuted. Qed.
 Print Assumptions C16_stale_notification_refuted.
 
+(* FALSE as well for the variant [shared_session] (connClosed filters by a number that is advanced only
+   when an established session is closed): witness: registration refused, immediate healthy Start, then the
+   failed attempt's notification (client 1) closes the new session (client 2) *)
+Theorem C16_failed_start_notification_refuted :
+  exists l g, reachable shared_session (run shared_session init l) /\
+    let s := run shared_session init l in
+    ph s = Configured /\ started s = true /\ g <> gen s /\ memn g (pending s) = true /\
+    ph (step shared_session s (ADeliver g)) = Closing /\
+    let s' := settle shared_session s in ph s' = Idle /\ started s' = false /\ fired s' = [2; 1].
+Proof. exact failed_start_notification_refuted. Qed.
+Print Assumptions C16_failed_start_notification_refuted.
+
 (* what holds for every switch setting: a notification delivered while the stub is idle is harmless *)
 Theorem C16_stale_notification_partial : forall sw s g,
   ph s = Idle -> same_session s (step sw s (ADeliver g)).
@@ -209,7 +224,8 @@ Print Assumptions C16_stale_notification_partial.
 
 (* the switch settings the theorems are instantiated with *)
 Example C16_ex_fixed :
-  wait_cfg_unguarded fixed = false /\ stale_close_unfiltered fixed = false /\ dead_conn_reused fixed = false.
+  wait_cfg_unguarded fixed = false /\ stale_close_unfiltered fixed = false /\ dead_conn_reused fixed = false /\
+  failed_start_shares_session fixed = false.
 Proof. repeat split. Qed.
 
 (* a reachable state with a Start under way (hypotheses of C16_start_returns) *)
@@ -237,6 +253,19 @@ Example C16_ex_ops_pinned :
       {| o_class := KOk; o_started := Some false; o_closes := 2; o_waiting := 0 |}]
      (run_ops pinned init [OStart BHealthy; OStopStart BHealthy]).
 Proof. vm_compute. repeat split. left. reflexivity. Qed.
+
+(* a failed Start immediately followed by a healthy one: whichever runs first, the new session stays up *)
+Example C16_ex_failed_then_start :
+  (forall f, In f [BRefuse; BDropInReg; BDropAfterReg; BCfgError] ->
+   forall o, In o (run_ops fixed init [OStartStart f BHealthy]) ->
+     o = [{| o_class := KOk; o_started := Some true; o_closes := 1; o_waiting := 0 |}]) /\
+  In [{| o_class := KOk; o_started := Some false; o_closes := 2; o_waiting := 0 |}]
+     (run_ops shared_session init [OStartStart BCfgError BHealthy]).
+Proof.
+  split.
+  - intros f H. cbn in H. repeat destruct H as [<-|H]; try contradiction; vm_compute; intros o [<-|[<-|[]]]; reflexivity.
+  - vm_compute. left. reflexivity.
+Qed.
 
 Example C16_ex_ops_fixed :
   run_ops fixed init [OStart BDropAfterReg] = [[{| o_class := KErr; o_started := Some false; o_closes := 1; o_waiting := 0 |}]] /\
